@@ -102,6 +102,13 @@ what TSStatelessBFS must hand to its handler. -/
 def maxTerms (g : G) (d : Dir) (wfilt : Edge → Option Nat) (maxDepth : Int) : Nat → PTerm → List PTerm :=
   treeLeaves (ptChildren (fun n => g.incident n d) wfilt maxDepth Edge.other) ptIsPath
 
+/-- the graph the store denotes after a history of store operations and handle operations (the latter do not touch it) -/
+def G.hstep (g : G) : HOp → G
+  | .build o => g.step o
+  | _ => g
+
+def G.ofRun (ops : List HOp) : G := ops.foldl G.hstep {}
+
 /-- keep the last occurrence of every pair -/
 def dedupP : List (Nat × Nat) → List (Nat × Nat)
   | [] => []
